@@ -76,6 +76,8 @@ type session struct {
 	noop      map[string]bool // faults that did not change the forwarded bytes
 	unknown   []string
 	corrupted bool // some host message was altered
+	noWatchdog bool
+	extendAt   map[int]int // step -> offset at which Raw/extend garbage begins
 	// dataHook may replace the honest raw data of a raw step before field faults are applied.
 	dataHook func([]byte) []byte
 }
@@ -142,7 +144,8 @@ func (s *session) randomMutation(b []byte, f Fault) []byte {
 
 
 // handle is the script's per-message hook.
-func (s *session) handle(i int, in inMsg) outMsg {
+func (s *session) handle(i int, in inMsg) (out outMsg) {
+	out.cut = true
 	name := s.steps[i].name
 	faults := s.faultsFor(name)
 	obj := in.obj
@@ -176,6 +179,13 @@ func (s *session) handle(i int, in inMsg) outMsg {
 		honest = nil // synthesized where the host sent nothing
 	}
 	cut := false
+	defer func() {
+		// a fault the harness cannot apply (e.g. on a message the host never sent) must not
+		// take the process down: it is reported and fails the run as an infrastructure error
+		if r := recover(); r != nil {
+			s.unknown = append(s.unknown, fmt.Sprintf("mutation of %s panicked: %v", name, r))
+		}
+	}()
 	for _, f := range faults {
 		before := append([]byte(nil), cur...)
 		switch {
@@ -189,6 +199,7 @@ func (s *session) handle(i int, in inMsg) outMsg {
 			cur = cur[:n]
 			cut = true
 		case f.Field == "Raw" && f.How == "extend":
+			s.extendAt[i] = len(cur)
 			cur = append(append([]byte(nil), cur...), s.garbage("raw-extend/"+name, 72)...)
 		case isRaw:
 			raw := append([]byte(nil), cur...)
@@ -222,6 +233,10 @@ type Outcome struct {
 	Err       string          `json:"err,omitempty"`
 	Detail    map[string]bool `json:"detail,omitempty"`
 	Delivered int             `json:"delivered"`
+	Consumed  []int           `json:"consumed"`
+	Stalled   bool            `json:"stalled,omitempty"`
+	// Noop: faults that did not change the bytes on the wire, or sit on a message the renter
+	// never read a byte of (it had returned already)
 	Noop      []string        `json:"noop,omitempty"`
 	Corrupted bool            `json:"corrupted"`
 	HostErrs  []string        `json:"hostErrs,omitempty"`
@@ -233,7 +248,15 @@ type Outcome struct {
 func (s *session) run() Outcome {
 	e := s.e
 	s.noop = map[string]bool{}
+	s.extendAt = map[int]int{}
 	s.sc = &script{steps: s.steps, handle: s.handle, rawLen: s.rawLen}
+	if !s.noWatchdog {
+		for _, f := range s.c.Faults {
+			if f.Field == "Raw" || f.How == "random" {
+				s.sc.stall = time.Duration(hx.EnvInt("VERIF_STALL_MS", 1500)) * time.Millisecond
+			}
+		}
+	}
 	e.net.SetProxy(s.sc.proxy)
 	defer e.net.SetProxy(nil)
 	t0 := time.Now()
@@ -245,7 +268,7 @@ func (s *session) run() Outcome {
 				out.Err = fmt.Sprint(r)
 			}
 		}()
-		ctx, cancel := context.WithTimeout(context.Background(), 60*time.Second)
+		ctx, cancel := context.WithTimeout(context.Background(), time.Duration(hx.EnvInt("VERIF_CALL_TIMEOUT_MS", 30000))*time.Millisecond)
 		defer cancel()
 		res, err := s.call(ctx)
 		if err != nil {
@@ -264,7 +287,21 @@ func (s *session) run() Outcome {
 	s.sc.mu.Lock()
 	out.Delivered = s.sc.delivered
 	out.HostErrs = s.sc.hostErrs
+	out.Consumed = append([]int(nil), s.sc.consumed...)
+	out.Stalled = s.sc.stalled
 	s.sc.mu.Unlock()
+	for _, f := range s.c.Faults {
+		for i, st := range s.steps {
+			if st.name != f.Msg {
+				continue
+			}
+			if i >= len(out.Consumed) || out.Consumed[i] == 0 {
+				s.noop[f.String()] = true // the renter never read a byte of that message
+			} else if at, ok := s.extendAt[i]; ok && f.Field == "Raw" && f.How == "extend" && out.Consumed[i] <= at {
+				s.noop[f.String()] = true // ... or of the garbage appended to it
+			}
+		}
+	}
 	for k := range s.noop {
 		out.Noop = append(out.Noop, k)
 	}
